@@ -342,7 +342,7 @@ def check_summary(text, m):
 # ---------------------------------------------------------------------------
 # real suites and testtools.run
 
-KINDS = ("success", "failure", "error", "skip", "xfail", "uxsuccess", "double", "subfail", "barefail")
+KINDS = ("success", "failure", "error", "skip", "xfail", "uxsuccess", "double", "subfail", "barefail", "subpass")
 KIND_BAD = ("failure", "error", "uxsuccess", "double", "subfail", "barefail")
 RAN = []
 
@@ -372,6 +372,20 @@ def make_case(kind, n):
                 return PlaceHolder.run(self, result)
 
         return B("k%d.barefail" % n, outcome="addFailure")
+    if kind == "subpass":
+        # plain unittest.TestCase with subtests that all pass: nothing to stop for
+        class SP(unittest.TestCase):
+            def test_it(self):
+                RAN.append(n)
+                with self.subTest(i=1):
+                    pass
+                with self.subTest(i=2):
+                    pass
+
+            def id(self):
+                return "k%d.subpass" % n
+
+        return SP("test_it")
     if kind == "subfail":
         # plain unittest.TestCase whose only problem is a failing subTest
         class S(unittest.TestCase):
@@ -481,7 +495,7 @@ def check_suites(res, tier):
                         m.counts["addFailure"] += 1
                         m.bad = True
                         continue
-                    m.counts[{"success": "addSuccess", "failure": "addFailure", "error": "addError", "skip": "addSkip", "xfail": "addExpectedFailure", "uxsuccess": "addUnexpectedSuccess"}[k]] += 1
+                    m.counts[{"subpass": "addSuccess", "success": "addSuccess", "failure": "addFailure", "error": "addError", "skip": "addSkip", "xfail": "addExpectedFailure", "uxsuccess": "addUnexpectedSuccess"}[k]] += 1
                     if k in KIND_BAD:
                         m.bad = True
                 text = out.getvalue()
